@@ -197,6 +197,21 @@ def run(ctx, eng):
            rng == {'(-stream_id >= 0)', '(-acknowledged_size > 0)'},
            'ValueError for stream_id <= 0 or a negative size (found %s)'
            % sorted(rng), node=f5.node)
+    # ---- a local INITIAL_WINDOW_SIZE change moves window and maximum alike
+    f6 = m.func('stream.H2Stream._inbound_flow_control_change_from_settings')
+    ok = False
+    for p in cm.normal_paths(eng.I.run(f6)):
+        wo = cm.calls_to(p, 'window_opened')
+        mw = [e for e in p.events if e.kind == 'write' and
+              e.attr == 'max_window_size' and e.frame == f6.qual]
+        ok = len(wo) == 1 and wo[0].args[0] == ('p', 'delta') and \
+            len(mw) == 1 and cm.aff_is(mw[0].value, {
+                'delta': 1,
+                'self._inbound_window_manager.max_window_size': 1})
+    ctx.ob('FLOW.maximum', f6.qual, 'maximum moves by the settings delta',
+           ok, 'max_window_size = old maximum + delta (not derived from the '
+           'current window: bytes received but not yet acknowledged must '
+           'stay creditable)', node=f6.node)
     ctx.assume('LIVENESS NOT DECIDED: that a zero window does not stay zero '
                'once everything is acknowledged depends on the value of the '
                'threshold expression and on an induction over histories')
